@@ -113,10 +113,10 @@ def gen_bw_infix(rng, idx):
     pattern's (failed) continuation: a long pattern L, a short pattern S that is an infix of L (not a
     prefix), a pattern that follows L one symbol past S and then diverges, plus 0-2 random extras."""
     sym = "abcdxyz"
-    ln = rng.randint(4, 6)
+    ln = rng.randint(5, 7)
     L = "".join(rng.choice(sym) for _ in range(ln))
-    i = rng.randint(1, ln - 2)
-    j = rng.randint(i + 1, ln - 1)
+    i = rng.randint(1, ln - 4)           # S starts inside L ...
+    j = rng.randint(i + 1, ln - 3)       # ... and L goes on for at least two more symbols after T leaves it
     S = L[i:j]
     T = L[i:j + 1] + rng.choice(sym)
     pats = {L, S, T}
